@@ -10,6 +10,7 @@ mod registry;
 mod rng;
 mod scen_chunk;
 mod scen_de;
+mod scen_dyn;
 mod scen_fault;
 mod scen_hist;
 mod scen_pipe;
